@@ -473,6 +473,11 @@ fn run_case(a: &Arg, out: &mut Vec<String>) {
             out.push(format!("resp {} {}", id, hex(&bytes)));
         }
         8 => run_router(id, l[2].b(), l[3].b(), l[4].l(), l[5].l(), out),
+        9 => {
+            let dir = std::env::var("MHH_SOCK_DIR").unwrap_or_else(|_| "/verif/.work/sock".to_string());
+            let _ = std::fs::create_dir_all(&dir);
+            server::run_case(a, out, &dir)
+        }
         _ => out.push("? unknown case".to_string()),
     }
 }
